@@ -29,7 +29,7 @@ let nm s = coqn_of_z (BZ.of_string s)
 let zz s = coqz_of_z (BZ.of_string s)
 let bb s = s = "1"
 
-let parse_op = function
+let parse_l1 = function
   | ["NewNetwork"] -> NewNetwork
   | ["NewBus"; a] -> NewBus (nm a)
   | ["NewNode"; a; b; c] -> NewNode (nm a, zz b, nat_of_int (int_of_string c))
@@ -66,6 +66,25 @@ let parse_op = function
   | ["EvalUpdateIndex"; a; b; c] -> EvalUpdateIndex (hd_ a, zz b, bb c)
   | l -> failwith ("bad op: " ^ String.concat " " l)
 
+let cause_of = function
+  | "Duplicated" -> Duplicated | "NotFound" -> NotFound | "Negative" -> Negative | "OutOfBounds" -> OutOfBounds
+  | "Zero" -> Zero | "Nil" -> Nil | "NoSpaceLeft" -> NoSpaceLeft | "Intersect" -> Intersect
+  | "InvalidType" -> InvalidType | "ReceiverIsSender" -> ReceiverIsSender | "TooSmall" -> TooSmall
+  | "TooBig" -> TooBig | "Layout" -> Layout | c -> failwith ("bad cause " ^ c)
+
+(* layer-3 operations; the name argument of the signal constructors is not part of the model *)
+let parse_op = function
+  | ["NewStdSignal"; _; t] -> NewStdSignal (oh t)
+  | ["NewEnumSignal"; _; e] -> NewEnumSignal (oh e)
+  | ["StdSetType"; a; t; f] -> StdSetType (hd_ a, oh t, bb f)
+  | ["StdSetUnit"; a; u] -> StdSetUnit (hd_ a, oh u)
+  | ["EnumSetEnum"; a; e; f] -> EnumSetEnum (hd_ a, oh e, bb f)
+  | ["Assign"; e; a; _; v] -> Assign (hd_ e, oh a, (if v = "-" then None else Some (cause_of v)))
+  | ["RemoveAssign"; e; k] -> RemoveAssign (hd_ e, hd_ k)
+  | ["RemoveAllAssign"; e] -> RemoveAllAssign (hd_ e)
+  | ["BusSetBuilder"; b; c] -> BusSetBuilder (hd_ b, oh c)
+  | l -> L1 (parse_l1 l)
+
 let cause_s = function
   | Duplicated -> "Duplicated" | NotFound -> "NotFound" | Negative -> "Negative"
   | OutOfBounds -> "OutOfBounds" | Zero -> "Zero" | Nil -> "Nil" | NoSpaceLeft -> "NoSpaceLeft"
@@ -91,7 +110,10 @@ let mzh m = map_s z_of_coqz zs (map_zh m)
 let mhh m = map_s z_of_pos ps (map_hh m)
 let heap f l = List.map (fun (h, r) -> (z_of_pos h, f h r)) l
 
-let dump (s : state) : string =
+let dump (s3 : state3) : string =
+  let s = s3.base in
+  let refs tag m = List.filter_map (fun (h, l) -> if l = [] then None else
+      Some (z_of_pos h, Printf.sprintf "%s%s:%s" tag (ps h) (String.concat "," (List.map ps (sort_by z_of_pos l))))) (refs_list m) in
   let items =
     heap (fun h r -> Printf.sprintf "N%s:b=%s;bn=%s" (ps h) (set_s r.n_buses) (mnh r.n_busNames)) (heap_nets s)
     @ heap (fun h r -> Printf.sprintf "B%s:n=%s;p=%s;ni=%s;nn=%s;id=%s;st=%s" (ps h) (ns r.b_name) (opt r.b_parent)
@@ -107,8 +129,18 @@ let dump (s : state) : string =
     @ heap (fun h r -> Printf.sprintf "E%s:v=%s;vn=%s;vi=%s;mx=%s" (ps h) (set_s r.e_values) (mnh r.e_valueNames)
                (mzh r.e_valueIdx) (zs r.e_maxIndex)) (heap_enums s)
     @ heap (fun h r -> Printf.sprintf "V%s:n=%s;ix=%s;p=%s" (ps h) (ns r.v_name) (zs r.v_index) (opt r.v_parent))
-        (heap_evals s) in
-  String.concat "|" (List.map snd (List.sort (fun (a, _) (b, _) -> BZ.compare a b) items))
+        (heap_evals s)
+    @ heap (fun h r -> Printf.sprintf "S%s:k=%s;t=%s;u=%s;e=%s" (ps h)
+               (match r.sg_kind with SStd -> "0" | SEnum -> "1" | SMux -> "2") (opt r.sg_type) (opt r.sg_unit) (opt r.sg_enum))
+        (heap_sigs s3) in
+  let l1 = String.concat "|" (List.map snd (List.sort (fun (a, _) (b, _) -> BZ.compare a b) items)) in
+  let ext = refs "Rt" s3.type_refs @ refs "Ru" s3.unit_refs @ refs "Re" s3.enum_refs @ refs "Ra" s3.attr_refs
+            @ refs "As" s3.assigns @ refs "Rc" s3.builder_refs
+            @ List.map (fun (b, c) -> (z_of_pos b, Printf.sprintf "Bb%s:%s" (ps b) (ps c))) (builder_list s3) in
+  (* the extension is printed grouped by kind, each group sorted by handle *)
+  let grp tag = List.map snd (List.sort (fun (a, _) (b, _) -> BZ.compare a b)
+      (List.filter (fun (_, x) -> String.length x >= 2 && String.sub x 0 2 = tag) ext)) in
+  String.concat "|" (l1 :: List.concat_map grp ["Rt"; "Ru"; "Re"; "Ra"; "As"; "Rc"; "Bb"])
 
 let split_ws s = List.filter (fun x -> x <> "") (String.split_on_char ' ' s)
 
@@ -116,7 +148,7 @@ let () =
   let ic = open_in Sys.argv.(1) in
   let verbose = Array.length Sys.argv > 2 && Sys.argv.(2) = "-v" in
   let hist = ref 0 and stepn = ref 0 and steps = ref 0 and cases = ref 0 and bad = ref 0 in
-  let st = ref init and res = ref Ok and opline = ref "" in
+  let st = ref init3 and res = ref Ok and opline = ref "" in
   let dead = ref false in   (* after a mismatch / panic the rest of the history is skipped *)
   let report kind impl model =
     incr bad; dead := true;
@@ -128,10 +160,10 @@ let () =
       if n >= 2 && line.[0] <> '#' then begin
         let body = String.sub line 2 (n - 2) in
         match line.[0] with
-        | 'H' -> hist := int_of_string (String.trim body); st := init; stepn := 0; dead := false; incr cases
+        | 'H' -> hist := int_of_string (String.trim body); st := init3; stepn := 0; dead := false; incr cases
         | 'O' when not !dead ->
           incr stepn; incr steps; opline := body;
-          let (s', r) = step !st (parse_op (split_ws body)) in
+          let (s', r) = step3 !st (parse_op (split_ws body)) in
           st := s'; res := r;
           if verbose then Printf.printf "op %s\n" body
         | 'R' when not !dead ->
@@ -140,7 +172,7 @@ let () =
             | Err l -> "err " ^ String.concat "/" (List.map (fun (c, w) -> cause_s c ^ " " ^ wrap_s w) l) in
           let agree = match split_ws body, !res with
             | ["ok"], Ok -> true
-            | ["err"; c; w], Err l -> List.exists (fun (c', w') -> cause_s c' = c && wrap_s w' = w) l
+            | ["err"; c; w], Err l -> List.exists (fun (c', w') -> cause_s c' = c && (c = "Layout" || wrap_s w' = w)) l
             | _ -> false in
           if verbose then Printf.printf "  impl %s | model %s\n" body model;
           if not agree then report "result" body model
